@@ -116,6 +116,11 @@ func seeds() []seedFile {
 				add(a.name, b)
 			}
 		}
+		// valid pictures of more than 100,000 pixels in extreme shapes (fewer rows than CPU workers):
+		// row-partitioned parallel paths of the readers get workers without work
+		add("lossless-wide", mustEncode(mkImg(12000, 9, "pal16", "opaque", 41), func(o *gen.Opts) { o.Lossless = true; o.Method = 1 }))
+		add("lossless-tall", mustEncode(mkImg(9, 12000, "pal4", "binary", 42), func(o *gen.Opts) { o.Lossless = true; o.Method = 1 }))
+		add("lossyalpha-wide", mustEncode(mkImg(9000, 12, "flat", "levels", 43), func(o *gen.Opts) { o.Method = 1 }))
 		// a longer animation (more frames than a small worker pool): frame-parallel readers queue work
 		{
 			var frames []image.Image
